@@ -8,4 +8,4 @@ Extraction "m.ml" xb_add xb_mul xb_div_eucl output_prefix
   siv_enc siv_dec polyval_impl polyval_spec
   xaes_enc xaes_dec
   env_enc env_dec build_envelope parse_envelope dek_proto dek_key
-  na_dec_panics chacha_open_max.
+  na_dec_len_only chacha_open_max chacha_tink_ct_max.
